@@ -29,11 +29,12 @@ def run_one(m, run_tests):
   try:
     dst = os.path.join(scratch, 'repo')
     shutil.copytree(REPO, dst, ignore=shutil.ignore_patterns('.git', '__pycache__', '*.pyc', '.pytest_cache'))
-    path = os.path.join(dst, m['file'])
-    src = open(path).read()
-    if src.count(m['old']) != 1:
-      return m, 'BAD-MUTANT (old text occurs %d times)' % src.count(m['old']), ''
-    open(path, 'w').write(src.replace(m['old'], m['new']))
+    for e in (m.get('edits') or [m]):
+      path = os.path.join(dst, e['file'])
+      src = open(path).read()
+      if src.count(e['old']) != 1:
+        return m, 'BAD-MUTANT (old text occurs %d times in %s)' % (src.count(e['old']), e['file']), ''
+      open(path, 'w').write(src.replace(e['old'], e['new']))
     tests = ''
     if run_tests:
       p = subprocess.run(['/venv/bin/python', '-m', 'pytest', '-q', '-x', '-p', 'no:cacheprovider',
